@@ -17,11 +17,13 @@ macro_rules! harnesses {
 pub mod c01;
 pub mod canary;
 pub mod c15;
+pub mod c02;
 
 pub fn registry() -> Vec<(&'static str, fn())> {
     let mut v = Vec::new();
     v.extend_from_slice(c01::LIST);
     v.extend_from_slice(canary::LIST);
     v.extend_from_slice(c15::LIST);
+    v.extend_from_slice(c02::LIST);
     v
 }
